@@ -135,7 +135,7 @@ def list_into(prop, tier, fnd, cov, ck):
 
 def clone_dump(tier, ck):
     return ck.stage_dump(tier, module="MC_Clone.tla", base="MC_CloneDump", name="dump-clone",
-                         segments=(("crash", 400 if tier == "quick" else 4000),))
+                         segments=(("crash", 400 if tier == "quick" else 1200),))
 
 
 def clone_crash_into(prop, tier, fnd, cov, ck):
@@ -153,7 +153,7 @@ def collect(prop, tier, fnd, cov, ck):
         model = ck.stage_model(tier, module="MC_Iter.tla", base="MC_Iter", name="model-iter")
         model_into(prop, model, cov, ck, "MC_Iter")
         dump = ck.stage_dump(tier, module="MC_Iter.tla", base="MC_IterDump", name="dump-iter",
-                             segments=(("forget", 1500 if tier == "quick" else 8000),))
+                             segments=(("forget", 1500 if tier == "quick" else 4000),))
         cov["edges"] = dump["tour"]["edges"]
         nt = dump["nontrivial"]
         if prop == "C12":
